@@ -24,6 +24,7 @@ const O = (fields) => ({ $obj: "plain", fields: fields.map(([k, v]) => [k, v, 1]
 export const PROBES = [
   { id: "named-intersection", prog: { decls: objAB, parsers: [{ name: "X", t: T.inter([T.ref("NA"), T.ref("NB")]) }] }, value: O([["a", "x"], ["b", 1]]), expect: "Y" },
   { id: "named-intersection-extra", prog: { decls: objAB, parsers: [{ name: "X", t: T.inter([T.ref("NA"), T.ref("NB")]) }] }, value: O([["a", "x"], ["b", 1], ["c", 1]]), expect: "N" },
+  { id: "typed-array-to-named-intersection", prog: { decls: [{ d: "alias", name: "NV", params: [], t: T.obj([T.prop("value", T.kw("null"))]) }, { d: "alias", name: "NO", params: [], t: T.obj([T.prop("next", T.kw("boolean"), true)]) }], parsers: [{ name: "X", t: T.inter([T.ref("NV"), T.ref("NO")]) }] }, value: { $typed: "Float32Array", data: [0] }, expect: "N" },
   { id: "flat-extra", prog: { decls: [], parsers: [{ name: "X", t: T.obj([T.prop("a", T.kw("string"))]) }] }, value: O([["a", "x"], ["zz", 1]]), expect: "N" },
   { id: "nested-array-extra", prog: { decls: [], parsers: [{ name: "X", t: T.arr(T.obj([T.prop("a", T.kw("string"))])) }] }, value: [O([["a", "x"], ["zz", 1]])], expect: "N" },
   { id: "record-admits", prog: { decls: [], parsers: [{ name: "X", t: T.util("Record", [T.kw("string"), T.kw("number")]) }] }, value: O([["anything", 1]]), expect: "Y" },
